@@ -40,7 +40,7 @@ type Pools struct {
 
 var topSegs = []string{"assets", "expenses", "petty cash", "income", "liabilities", "equity", "Assets", "Expenses", "misc", "x", "активы", "projects"}
 var subSegs = []string{"cash", "food", "bank checking", "card1", "чек", "наличные", "opening balances", "Salary", "a", "B2", "y😀z", "rent", "café", "long account segment name"}
-var symPool = []string{"$", "€", "EUR", "USD", "AAPL", "AB C", "ACME Inc.", "£", "🍎 X"}
+var symPool = []string{"$", "€", "EUR", "USD", "AAPL", "AB C", "ACME Inc.", "£", "🍎 X", "ЕВРО"}
 var payeePool = []string{"shop", "Whole Foods", "café", "Ашан", "grocery store", "x", "landlord", "bakery 😀"}
 var tagPool = []string{"k", "trip", "Project-1", "a_b", "type"}
 var tagVals = []string{"", "v", "two words", "2024-01-02", "é😀", "x1"}
